@@ -17,12 +17,26 @@
 (***************************************************************************)
 EXTENDS LTensor
 
+Is1DCls(cls) == cls \in {"mps", "mpsc"}
+
 Abs(x) == IF x < 0 THEN -x ELSE x
 Abs1(g) == Abs(g[1]) + Abs(g[2])
 
 ConjMat(M) == [M EXCEPT !.data = [k \in DOMAIN M.data |-> GConj(M.data[k])]]
 \* the operator that is applied: G, its transpose, its adjoint (its conjugate)
 OpVar(G, op) == CASE op = "N" -> G [] op = "T" -> Transpose(G) [] op = "H" -> Dagger(G) [] op = "C" -> ConjMat(G)
+
+(* ---------------- the option grid {dagger} x {transpose} ------------------ *)
+\* An application is asked for with two flags.  `op` names the combination:
+\*     "N" neither     "T" transpose only     "H" dagger only     "B" both flags
+\* The documented contract (tensor_network_gate_inds, tensor_network_gate_sandwich_inds, tensor_network_ag_gate,
+\* gate_simple): "transpose: apply G^T, no conjugation.  Implied by dagger" - so with both flags the adjoint is applied.
+\* RefOp is that contract; it knows nothing about entry points or modes.
+FlagsOf(op) == [dagger |-> op \in {"H", "B"}, transpose |-> op \in {"T", "B"}]
+RefOp(dagger, transpose) == IF dagger THEN "H" ELSE IF transpose THEN "T" ELSE "N"
+EffOp(op) == IF op = "C" THEN "C" ELSE RefOp(FlagsOf(op).dagger, FlagsOf(op).transpose)
+\* (The 'nonlocal' branch of the 1D `gate` used to FLIP transpose under dagger - conj(G) with both flags, found by
+\* this check - and was repaired in 0a1463db; no route-specific exception is left: every route is judged by RefOp.)
 
 IdMat(d) == [rows |-> d, cols |-> d, data |-> [n \in 1..(d * d) |-> IF (n - 1) \div d = (n - 1) % d THEN GOne ELSE GZero]]
 \* Kronecker product: first factor A (slow digit), second factor B
@@ -61,9 +75,9 @@ Lower(dims, sites) == [k \in DOMAIN sites |-> Len(dims) + sites[k]]
 
 \* The abstract update.  which = "site" for states; for an operator X (D x D, vectorised):
 \*   "upper"    X -> E X            "lower"  X -> X E^T         "sandwich"  X -> E X E^dagger
-\* with E = Embed(G^op, dims, sites)  (G replaced by G^T / G^dagger when op = "T" / "H").
+\* with E = Embed(G^op, dims, sites)  (G replaced by G^T / G^dagger as RefOp says for the flag combination `op`).
 ApplyRef(G, dims, sites, v, op, which) ==
-  LET Gv == OpVar(G, op)
+  LET Gv == OpVar(G, EffOp(op))
       dd == dims \o dims
       lo == Lower(dims, sites)
   IN  CASE which = "site"     -> ApplyLocal(Gv, dims, sites, v)
@@ -75,9 +89,9 @@ ApplyRef(G, dims, sites, v, op, which) ==
 VecOfMat(M) == M.data
 MatOfVec(v, D) == [rows |-> D, cols |-> D, data |-> v]
 ApplyRefDef(G, dims, sites, v, op, which) ==
-  LET E == EmbedMat(OpVar(G, op), dims, sites)
+  LET E == EmbedMat(OpVar(G, EffOp(op)), dims, sites)
       D == Size(dims)
-  IN  CASE which = "site"     -> EmbedVec(OpVar(G, op), dims, sites, v)
+  IN  CASE which = "site"     -> EmbedVec(OpVar(G, EffOp(op)), dims, sites, v)
         [] which = "upper"    -> VecOfMat(MatMul(E, MatOfVec(v, D)))
         [] which = "lower"    -> VecOfMat(MatMul(MatOfVec(v, D), Transpose(E)))
         [] which = "sandwich" -> VecOfMat(MatMul(MatMul(E, MatOfVec(v, D)), Dagger(E)))
@@ -152,13 +166,14 @@ Accepts(cls, entry, mode, k, adj, form, op, which) ==
            (IF k = 1 THEN "yes"
             \* the adjoint reaches gate_split through the swaps' split options: it works only as long as the swaps
             \* do not look at their options (cutoff = 0), otherwise the call raises
-            ELSE IF op = "H" /\ (mode = "swap+split" \/ (mode = "auto-mps" /\ k = 2)) THEN "maybe"
+            ELSE IF op \in {"H", "B"} /\ (mode = "swap+split" \/ (mode = "auto-mps" /\ k = 2)) THEN "maybe"
             ELSE IF mode = "swap+split" THEN (IF k = 2 THEN NeedsStruct("yes", form) ELSE "no")
             ELSE NeedsStruct("yes", form))
          ELSE "no"
     [] entry = "gate_inds" -> IF mode \in Generic7 THEN ContractRule(mode, k, adj, form) ELSE "no"
-    [] entry = "gate_inds_with_tn" -> IF which = "sandwich" THEN "no" ELSE "yes"
-    [] entry = "Tensor.gate" -> IF k = 1 /\ which # "sandwich" THEN "yes" ELSE "no"
+    \* (these two have no dagger flag: the driver spells the adjoint as conj + transpose, "B" cannot be spelled)
+    [] entry = "gate_inds_with_tn" -> IF which = "sandwich" \/ op = "B" THEN "no" ELSE "yes"
+    [] entry = "Tensor.gate" -> IF k = 1 /\ which # "sandwich" /\ op # "B" THEN "yes" ELSE "no"
     [] entry = "gate_split" ->
          IF ~Is1D(cls) THEN "no" ELSE IF k # 2 THEN "no"
          ELSE IF form = "struct" THEN (IF adj THEN "yes" ELSE "no") ELSE "maybe"
@@ -168,15 +183,15 @@ Accepts(cls, entry, mode, k, adj, form, op, which) ==
     [] entry = "gate_with_auto_swap" ->
          IF ~Is1D(cls) \/ op # "N" THEN "no" ELSE IF k # 2 THEN "no" ELSE NeedsStruct("yes", form)
     [] entry = "gate_sandwich_with_auto_swap" ->
-         IF cls # "mpo" \/ which # "sandwich" \/ op = "T" THEN "no" ELSE IF k # 2 THEN "no" ELSE NeedsStruct("yes", form)
+         IF cls # "mpo" \/ which # "sandwich" \/ op \notin {"N", "H"} THEN "no" ELSE IF k # 2 THEN "no" ELSE NeedsStruct("yes", form)
     [] entry \in {"gate_nonlocal", "gate_with_submpo", "gate_with_mpo"} ->
-         IF ~Is1D(cls) \/ op = "H" \/ mode \notin MpoMethods THEN "no"
+         IF ~Is1D(cls) \/ op \notin {"N", "T"} \/ mode \notin MpoMethods THEN "no"
          ELSE IF mode = "lazy" THEN (IF entry = "gate_with_mpo" THEN "no" ELSE "yes")
          ELSE IF mode = "direct" THEN NeedsStruct("yes", form)
          ELSE IF k = 1 /\ entry # "gate_with_mpo" THEN "maybe"
          ELSE NeedsStruct("yes", form)
     [] entry = "op_lazy" ->
-         IF which = "sandwich" THEN (IF op = "T" THEN "no" ELSE "yes") ELSE (IF op = "H" THEN "no" ELSE "yes")
+         IF which = "sandwich" THEN (IF op \in {"N", "H"} THEN "yes" ELSE "no") ELSE (IF op \in {"N", "T"} THEN "yes" ELSE "no")
     [] entry = "gate_simple" ->
          IF k >= 3 THEN "no"
          ELSE IF IsOp(cls) THEN (IF which # "sandwich" THEN "no"
